@@ -280,6 +280,16 @@ def world_plans(draw, tier):
                 op = draw(dump_ops(specs, mk, shared))
             # same stem, different suffix: files that belong together (cfg.yaml / cfg.json)
             op['file'] = '{}.t{}o{}'.format(draw(st.sampled_from(['cfg', 'cfg', 'data'])), t, i)
+            if draw(st.integers(0, 7)) == 0:
+                # re-entrant use: inside one of its callbacks (an __init__, a hook) the user's
+                # code calls a load or dump function itself - the same one or another one
+                smk = [m for m in setup if m['op'] == 'mk']
+                nmk = mk if (mk in smk and draw(st.booleans())) else draw(st.sampled_from(smk))
+                nop = draw(load_ops(specs, nmk)) if nmk['kind'] == 'load' else draw(dump_ops(specs, nmk, {}))
+                for k in ('cancel', 'cbf', 'iof'):
+                    nop.pop(k, None)
+                nop['file'] = 'cfg.nested{}'.format(t)
+                op['nest'] = {str(draw(st.integers(0, 3))): nop}
             oplist.append(op)
         threads.append(oplist)
     knobs = {'scope': draw(st.sampled_from(['yatiml', 'core', 'core', 'all'])),
